@@ -97,10 +97,10 @@ func (a answer) String() string {
 func genGraph(r *driver.Run, n int, prev *model.G) (*model.G, string) {
 	t := r.T
 	g := model.NewG(n)
-	fam := t.Draw(17)
+	fam := t.Draw(19)
 	if n > 16 {
 		// large graphs: only families on which both the labelling and the brute-force oracle stay cheap
-		fam = []int{2, 4, 5, 9, 10, 11, 8}[t.Draw(7)]
+		fam = []int{2, 4, 5, 9, 10, 11, 8, 17}[t.Draw(8)]
 	}
 	name := ""
 	switch fam {
@@ -148,6 +148,42 @@ func genGraph(r *driver.Run, n int, prev *model.G) (*model.G, string) {
 				g.Add(i, (i+j)%n)
 			}
 		}
+	case 17, 18:
+		// random regular graph: a circulant scrambled by degree-preserving edge switches
+		half := 1 + t.Draw(2)
+		for j := 1; j <= half && n >= 2*half+1; j++ {
+			for i := 0; i < n; i++ {
+				g.Add(i, (i+j)%n)
+			}
+		}
+		sw := t.Draw(4 * n)
+		for k := 0; k < sw && n >= 4; k++ {
+			a, c := t.Draw(n), t.Draw(n)
+			var na, nc []int
+			for u := 0; u < n; u++ {
+				if g.Has(a, u) {
+					na = append(na, u)
+				}
+				if g.Has(c, u) {
+					nc = append(nc, u)
+				}
+			}
+			if len(na) == 0 || len(nc) == 0 {
+				continue
+			}
+			b, d := na[t.Draw(len(na))], nc[t.Draw(len(nc))]
+			// edges a-b and c-d become a-c... no: a-d and c-b (keeps all degrees)
+			if a == c || a == d || b == c || b == d || g.Has(a, d) || g.Has(c, b) {
+				continue
+			}
+			g.Adj[a] &^= 1 << uint(b)
+			g.Adj[b] &^= 1 << uint(a)
+			g.Adj[c] &^= 1 << uint(d)
+			g.Adj[d] &^= 1 << uint(c)
+			g.Add(a, d)
+			g.Add(c, b)
+		}
+		name = fmt.Sprintf("random %d-regular graph (%d switches)", 2*half, sw)
 	case 13:
 		// complete multipartite with random part sizes (large groups, dense)
 		part := make([]int, n)
@@ -605,7 +641,7 @@ func main() {
 		Property: "C02",
 		Engine:   "canon-service",
 		Level:    "exploration",
-		Rule: "a case is one seeded history of up to 14 labelling requests through ONE reused CanonicalStorage/CanonicalOrderedPartition/CanonicalOptions triple of tape-chosen capacity N <= 9 (one history in six: 10 <= N <= 16; one in 30: 21 <= N <= 28): graph sizes go up and down within capacity; families: edgeless, complete, cycle, complete bipartite, complete multipartite, unions of cliques and their complements, rook graphs, two copies of a random graph, circulants, planted automorphisms, relabelled copy of the previous graph, random densities; some requests carry vertex classes (an ordered partition, classes ascending) and some are 'interrupted' (CheckViability with tape-drawn ViableBits, which may return early and leave the partition mid-search before the next Reset). " +
+		Rule: "a case is one seeded history of up to 14 labelling requests through ONE reused CanonicalStorage/CanonicalOrderedPartition/CanonicalOptions triple of tape-chosen capacity N <= 9 (one history in six: 10 <= N <= 16; one in 30: 21 <= N <= 28): graph sizes go up and down within capacity; families: edgeless, complete, cycle, complete bipartite, complete multipartite, unions of cliques and their complements, rook graphs, random regular graphs, two copies of a random graph, circulants, planted automorphisms, relabelled copy of the previous graph, random densities; some requests carry vertex classes (an ordered partition, classes ascending) and some are 'interrupted' (CheckViability with tape-drawn ViableBits, which may return early and leave the partition mid-search before the next Reset). " +
 			"Each answer must equal the same call on fresh storage and CanonicalIsomorphFull (perm, orbit partition, generator list), perm must be a permutation, and for groups of up to 60000 elements brute force over all (class-preserving) automorphisms must confirm orbits = orbits of Aut(g), every generator in Aut(g), closure of the generators = Aut(g). Non-trivial = at least 3 requests with at least one size change; distinct = distinct fingerprints of the observed answers.",
 		Assumptions: []string{
 			"the caller protocol of the search package is followed: Reset(n, m, classes) before every call, sizes within the capacity the pair was created with, n >= 1",
